@@ -79,6 +79,7 @@ pub fn describe_payload(p: Box<dyn std::any::Any + Send>) -> Result<u64, String>
 
 pub fn run_with_budget<D: Dom>(input: &str, at: &D::V, budget: u64) -> Run<D::V> {
     let slot = MY_SLOT.with(|s| *s);
+    install_altstack();
     {
         let mut c = SLOTS[slot].cur.lock().unwrap();
         c.clear();
@@ -154,6 +155,68 @@ pub fn start_watchdog(limit_s: u64, on_hang: Box<dyn Fn(Hang) + Send>) {
                     last[i] = (s, 0);
                 }
             }
+        }
+    });
+}
+
+// ---- fatal signals: a worker that overflows its stack or aborts takes the whole process down; the
+// handler records which inputs were being evaluated so that the driver can confirm and report them
+static ABORT_FD: std::sync::atomic::AtomicI32 = std::sync::atomic::AtomicI32::new(-1);
+
+extern "C" fn on_fatal_signal(sig: libc::c_int) {
+    let fd = ABORT_FD.load(Ordering::Relaxed);
+    if fd >= 0 {
+        for i in 0..NSLOTS {
+            if SLOTS[i].seq.load(Ordering::Relaxed) % 2 == 1 {
+                if let Ok(cur) = SLOTS[i].cur.try_lock() {
+                    let line = format!("ABORT\u{2}{}\u{2}{}\n", sig, cur.replace('\n', " "));
+                    unsafe {
+                        libc::write(fd, line.as_ptr() as *const libc::c_void, line.len());
+                    }
+                }
+            }
+        }
+    }
+    unsafe {
+        libc::_exit(77);
+    }
+}
+
+/// Installs handlers for SIGSEGV / SIGBUS / SIGABRT / SIGILL on an alternate stack (so that a stack
+/// overflow can still be reported). `path` receives one line per input that was in flight.
+pub fn install_fatal_handlers(path: &str) {
+    let cpath = std::ffi::CString::new(path).unwrap();
+    unsafe {
+        let fd = libc::open(cpath.as_ptr(), libc::O_WRONLY | libc::O_CREAT | libc::O_TRUNC, 0o644);
+        ABORT_FD.store(fd, Ordering::Relaxed);
+        let mut sa: libc::sigaction = std::mem::zeroed();
+        sa.sa_sigaction = on_fatal_signal as usize;
+        sa.sa_flags = libc::SA_ONSTACK;
+        libc::sigemptyset(&mut sa.sa_mask);
+        for sig in [libc::SIGSEGV, libc::SIGBUS, libc::SIGABRT, libc::SIGILL] {
+            libc::sigaction(sig, &sa, std::ptr::null_mut());
+        }
+    }
+}
+
+/// every thread that runs subject code needs its own alternate signal stack
+pub fn install_altstack() {
+    thread_local! {
+        static ALT: std::cell::RefCell<Option<Vec<u8>>> = const { std::cell::RefCell::new(None) };
+    }
+    ALT.with(|a| {
+        let mut a = a.borrow_mut();
+        if a.is_none() {
+            let mut buf = vec![0u8; 1 << 16];
+            let ss = libc::stack_t {
+                ss_sp: buf.as_mut_ptr() as *mut libc::c_void,
+                ss_flags: 0,
+                ss_size: buf.len(),
+            };
+            unsafe {
+                libc::sigaltstack(&ss, std::ptr::null_mut());
+            }
+            *a = Some(buf);
         }
     });
 }
